@@ -603,7 +603,7 @@ def exOut : Out :=
 
 def exReq (route : Route) (head : Bool) : Req :=
   { id := 1, isHead := head, fileWrapper := false, pathOK := true, path := "/x".toList,
-    urlRepr := "'http://h/x'".toList, route := route }
+    urlRepr := "'http://h/x'".toList, json := false, route := route }
 
 def exRoute : Route := .found { effs := [.setStatus (.code 202), .addHeader "X-C".toList "3".toList], res := .returns exOut }
 
